@@ -111,6 +111,27 @@ CHECKS = {
              'exported stacks and behaviours are replayed on the real classes (fresh abstract root and module names per scenario).',
         note='Trusted: TLC, dictionary encodings of scalars/strings, BANK isolation by fresh qualnames; Sink.Mode.resolve not reached.',
         design='6/C20'),
+    'C12': dict(
+        technique='TLC enumeration of evaluated / stacked pipelines with leak-freedom lemmas on the denotation '
+                  '(CompositionEvalMC.tla over Composition.tla); every expression composed with the real TrainTestScore / CrossVal / '
+                  'HoldOut / FullStack over a symbolic splitter and compared term by term with TLC',
+        text='The fold parts of a symbolic splitter (port 2i train, 2i+1 test) make provenance syntactic: TLC checks EvalLeakFree / '
+             'StackLeakFree on the denotation and exports the exact (true, predicted) terms reaching the metric, the stacked train set '
+             'and the reduced apply output; the real compositions are compiled, interpreted and must produce these terms, with one '
+             'trained splitter instance (training nonce) behind features and labels.',
+        note='Trusted: TLC, symbolic actors and callables, harness.refinterp. Fold counts 2..3 (quick) / 2..5 (thorough), 1..3 bases.',
+        design='6/C12 + Appendix A'),
+    'C18': dict(
+        technique='TLC exhaustive over a PEP 440 version lattice and generation keys (Keys.tla), the tag value domain with '
+                  'replace/trigger/dump/load (TagCodec.tla) and package/manifest life cycles (Packages.tla); every exported state / '
+                  'transition replayed on real posix registry trees, Tag, Manifest, Package; random levels and tag sessions '
+                  'validated by TraceKeys.tla / TraceTagCodec.tla',
+        text='Keys.tla transcribes the PEP 440 ordering (two formulations cross-checked by ASSUMEs) and requires listings to be '
+             'strictly sorted, complete and invalid-free with latest = max; TagCodec.tla requires Load(Dump(t)) = t over the tag domain; '
+             'Packages.tla requires manifests and installed components to read back. All exported vectors are replayed on the real code.',
+        note='Trusted: TLC; byte-level fidelity of arbitrary strings is outside the specification (finite tables only); fresh process '
+             'is simulated by clearing the TAGS/STATES/ARTIFACTS caches.',
+        design='6/C18'),
 }
 
 NOT_YET = {}
